@@ -36,6 +36,13 @@ Definition conv_bounds (a b s : bound) : option (Z * Z * Z) :=
       else Some (dflt MAXI a, dflt MINI b, st)
   end.
 
+(* one axis: what the emitted Slice selects on an axis of length d; None = refused or Slice error (step 0) *)
+Definition conv_slice (d : Z) (a b s : bound) : option (list Z) :=
+  match conv_bounds a b s with
+  | None => None
+  | Some (x, y, st) => onnx_slice d x y st
+  end.
+
 Fixpoint enum_from {A : Type} (k : nat) (l : list A) : list (nat * A) :=
   match l with [] => [] | x :: t => (k, x) :: enum_from (S k) t end.
 
@@ -52,6 +59,13 @@ Definition slice_spec (p : nat * comp) : option spec :=
   end.
 Definition scalar_spec (p : nat * comp) : spec :=
   match snd p with CInt i => (i, i + 1, fst p, 1) | _ => (0, 0, fst p, 1) end.
+
+(* entry for axis k in a list of (axis, x) pairs *)
+Fixpoint find_axis {A : Type} (k : nat) (l : list (nat * A)) : option A :=
+  match l with
+  | [] => None
+  | (a, x) :: t => if Nat.eqb a k then Some x else find_axis k t
+  end.
 
 Definition gix (c : comp) : gidx :=
   match c with CInt i => G0 i | CT0 i => G0 i | CT1 l => G1 l | CSlice _ _ _ => G0 0 end.
